@@ -120,7 +120,7 @@ struct IsSpan<cntgs::Span<T>> : std::true_type
 {
 };
 
-inline int val_of(int t, int salt, int k, int j) { return ((t * 7 + salt * 13 + k * 5 + j * 3) % 250) + 1; }
+inline int val_of(int t, int salt, int k, int j) { return ((t * 7 + salt * 13 + k * 5 + j * 3) % 240) + 1; }
 
 inline long clampl(long x)
 {
@@ -559,6 +559,96 @@ struct Driver
         return s + "]";
     }
 
+    // ---------------------------------------------------------------- writes through proxies, iterator table
+    template <class X>
+    static void write_field(X&& x, int q, int val)
+    {
+        using D = std::remove_cv_t<std::remove_reference_t<X>>;
+        if constexpr (IsSpan<D>::value)
+        {
+            using T = typename D::value_type;
+            x[static_cast<std::size_t>(q - 1)] = VT<T>::make(val);
+        }
+        else
+        {
+            x = VT<D>::make(val);
+        }
+    }
+    template <class Ref, std::size_t... I>
+    static void write_via_get(Ref&& r, int k, int q, int val, std::index_sequence<I...>)
+    {
+        ((static_cast<int>(I) + 1 == k ? write_field(cntgs::get<I>(r), q, val) : void()), ...);
+    }
+    template <class Ref, std::size_t... I>
+    static void write_via_binding(Ref&& r, int k, int q, int val, std::index_sequence<I...>)
+    {
+        SB<N>::apply(r,
+                     [&](auto&&... x)
+                     {
+                         auto t = std::forward_as_tuple(x...);
+                         ((static_cast<int>(I) + 1 == k ? write_field(std::get<I>(t), q, val) : void()), ...);
+                         return 0;
+                     });
+    }
+    template <std::size_t... I>
+    void write_item(Vec& vec, std::size_t i, int k, int q, int val, int path, std::index_sequence<I...> seq)
+    {
+        const std::size_t n = vec.size();
+        switch (path)
+        {
+            case 0: write_via_get(vec[i], k, q, val, seq); break;
+            case 1: write_via_get(*(vec.begin() + static_cast<std::ptrdiff_t>(i)), k, q, val, seq); break;
+            case 2:
+                if (i == 0)
+                    write_via_get(vec.front(), k, q, val, seq);
+                else if (i + 1 == n)
+                    write_via_get(vec.back(), k, q, val, seq);
+                else
+                    write_via_get(*((vec.begin() + static_cast<std::ptrdiff_t>(i)).operator->().operator->()), k, q,
+                                  val, seq);
+                break;
+            case 3: write_via_binding(vec[i], k, q, val, seq); break;
+            case 4: write_via_get(vec.begin()[static_cast<std::ptrdiff_t>(i)], k, q, val, seq); break;
+            default: write_via_get(*(vec.end() - static_cast<std::ptrdiff_t>(n - i)), k, q, val, seq);
+        }
+    }
+
+    // complete table of iterator arithmetic and comparisons for all positions 0..size (C11)
+    std::string iter_table(Vec& vec)
+    {
+        const Vec& cvec = vec;
+        const std::ptrdiff_t n = static_cast<std::ptrdiff_t>(vec.size());
+        std::ostringstream o;
+        o << "[";
+        bool first = true;
+        for (std::ptrdiff_t i = 0; i <= n; ++i)
+        {
+            for (std::ptrdiff_t j = 0; j <= n; ++j)
+            {
+                auto a = vec.begin() + i;
+                auto b = vec.begin();
+                b += j;
+                typename Vec::const_iterator ca = cvec.end() - (n - i);
+                auto inc = a;
+                auto dec = a;
+                long incidx = -1, decidx = -1, postidx = -1;
+                if (i < n)
+                {
+                    postidx = static_cast<long>((inc++).index());
+                    incidx = static_cast<long>(inc.index());
+                }
+                if (i > 0) decidx = static_cast<long>((--dec).index());
+                o << (first ? "" : ",") << "[" << i << "," << j << "," << (b - a) << "," << (a < b) << "," << (a <= b)
+                  << "," << (a == b) << "," << (a > b) << "," << (a >= b) << "," << (a != b) << ","
+                  << (a + (j - i)).index() << "," << (b - (j - i)).index() << "," << ca.index() << "," << (ca == typename Vec::const_iterator(a))
+                  << "," << incidx << "," << decidx << "," << postidx << "]";
+                first = false;
+            }
+        }
+        o << "]";
+        return o.str();
+    }
+
     // ---------------------------------------------------------------- arguments
     template <std::size_t I>
     std::size_t fixed_count_of(int v)
@@ -643,6 +733,7 @@ struct Driver
         int ret = -1;
         long parcap = -1;
         int salt = 0;
+        std::string itab = "[]";
         long fresh = 0;
         bool want_fresh = false;
         bool thrown = false;
@@ -749,6 +840,50 @@ struct Driver
                 std::swap(vfixed[v], vfixed[op.a[0]]);
             }
 #endif
+#ifndef VERIF_NO_REF_OPS
+            else if (op.n == "RefAssign")
+            {
+                const Vec& src = V(op.a[1]);
+                V(v)[static_cast<std::size_t>(op.a[0])] = src[static_cast<std::size_t>(op.a[2])];
+            }
+            else if (op.n == "RefMoveAssign")
+            {
+                V(v)[static_cast<std::size_t>(op.a[0])] = V(op.a[1])[static_cast<std::size_t>(op.a[2])];
+            }
+            else if (op.n == "RefSwap")
+            {
+                using std::swap;
+                swap(V(v)[static_cast<std::size_t>(op.a[0])], V(op.a[1])[static_cast<std::size_t>(op.a[2])]);
+            }
+            else if (op.n == "IterSwap")
+            {
+                std::iter_swap(V(v).begin() + op.a[0], V(op.a[1]).begin() + op.a[2]);
+            }
+            else if (op.n == "Rotate")
+            {
+                auto b = V(v).begin();
+                std::rotate(b + op.a[0], b + op.a[1], b + op.a[2]);
+            }
+            else if (op.n == "Reverse")
+            {
+                auto b = V(v).begin();
+                std::reverse(b + op.a[0], b + op.a[1]);
+            }
+            else if (op.n == "SwapRanges")
+            {
+                auto b = V(v).begin();
+                std::swap_ranges(b + op.a[0], b + op.a[1], V(op.a[2]).begin() + op.a[3]);
+            }
+#endif
+            else if (op.n == "WriteItem")
+            {
+                write_item(V(v), static_cast<std::size_t>(op.a[0]), op.a[1], op.a[2], op.a[3], op.a[4],
+                           std::make_index_sequence<N>{});
+            }
+            else if (op.n == "IterProbe")
+            {
+                itab = iter_table(V(v));
+            }
 #ifndef VERIF_NO_ELEM
             else if (op.n == "ElemFromRef")
             {
@@ -870,7 +1005,7 @@ struct Driver
         for (std::size_t i = 0; i < op.a.size(); ++i) o << (i ? "," : "") << op.a[i];
         o << "],\"par\":{\"salt\":" << salt << ",\"cap\":" << parcap << ",\"fresh\":" << fresh << "},\"thrown\":" << (thrown ? 1 : 0)
           << ",\"ret\":" << ret << ",\"canary\":" << (ledger().canary_dead ? 1 : 0) << ",\"sub\":[" << sub
-          << "],\"obs\":" << all_obs() << ",\"eobs\":" << all_el_obs() << "}";
+          << "],\"itab\":" << itab << ",\"obs\":" << all_obs() << ",\"eobs\":" << all_el_obs() << "}";
         ledger().take_sub();  // projection must not produce events; drop defensively
         out->line(o.str());
         return true;
